@@ -141,6 +141,8 @@ func runC13(w *fw.Worker) {
 		pt.Assign{Target: pt.Index{X: pt.V("km"), I: pt.S("")}, X: pt.N(3)}, pt.Assign{Target: pt.Index{X: pt.V("km"), I: pt.S("a-b")}, X: pt.N(4)},
 		pt.Assign{Target: pt.Index{X: pt.V("km"), I: pt.S("é_9")}, X: pt.N(5)}, pt.Assign{Target: pt.Index{X: pt.V("km"), I: pt.S("q\"x")}, X: pt.N(6)},
 		pt.Assign{Target: pt.Index{X: pt.V("km"), I: pt.S("while")}, X: pt.N(7)},
+		pt.Assign{Target: pt.Index{X: pt.V("km"), I: pt.S("größe")}, X: pt.N(8)}, pt.Assign{Target: pt.Index{X: pt.V("km"), I: pt.S("日本")}, X: pt.N(9)},
+		pt.Assign{Target: pt.Index{X: pt.V("km"), I: pt.S("˪")}, X: pt.N(10)}, pt.Assign{Target: pt.Index{X: pt.V("km"), I: pt.S("x é")}, X: pt.N(11)},
 		pt.Print(pt.V("xa"), pt.V("km")),
 	}
 	with := func(ss ...pt.Stmt) []pt.Stmt { return append(append([]pt.Stmt(nil), pre...), ss...) }
@@ -175,6 +177,11 @@ func runC13(w *fw.Worker) {
 		{pt.Assign{Target: pt.V("err"), X: pt.B(true)}}, {pt.Assign{Target: pt.V("err"), X: pt.B(false)}}, {pt.Assign{Target: pt.V("errmsg"), X: pt.S("mine")}},
 		{pt.Assign{Target: pt.V("e0"), X: pt.V("err")}, pt.Assign{Target: pt.V("m0"), X: pt.V("errmsg")}},
 		{pt.Assign{Target: pt.V("err"), X: pt.V("e0")}, pt.Assign{Target: pt.V("errmsg"), X: pt.V("m0")}},
+		// the code points of errmsg are those of its current text
+		{pt.If{Conds: []pt.Expr{pt.Bin(">=", pt.C("len", pt.V("errmsg")), pt.N(4))}, Blocks: [][]pt.Stmt{{pt.Print(pt.S("cp"), pt.Index{X: pt.V("errmsg"), I: pt.N(0)}, pt.Index{X: pt.V("errmsg"), I: pt.N(-1)},
+			pt.Slice{X: pt.V("errmsg"), Lo: pt.N(1), Hi: pt.N(4)}, pt.C("len", pt.V("errmsg")))}}, Else: []pt.Stmt{pt.Print(pt.S("cp-short"), pt.Slice{X: pt.V("errmsg")})}}},
+		// operands are evaluated left to right: err / errmsg on the left keep the value they had
+		{pt.Print(pt.S("lr"), pt.Group{X: pt.Bin("==", pt.V("err"), pt.C("str2bool", pt.S("maybe")))}, pt.Group{X: pt.Bin("+", pt.V("errmsg"), pt.C("sprint", pt.C("str2num", pt.S("7"))))})},
 	}
 	depth := 4
 	if !w.Quick() {
